@@ -82,6 +82,8 @@ fault_kinds! {
     WireAppend => "wire_append",
     WireDupTail => "wire_dup_tail",
     Shutdown => "shutdown_midrun",
+    AcceptError => "accept_error",
+    UdpRecvError => "udp_recv_error",
 }
 pub const N_FAULTS: usize = FAULT_NAMES.len();
 
